@@ -288,7 +288,7 @@ example : ((Item.block none (mkCall "FUNCTION" ["f", "x"])
   decide
 
 /-- a class with one member, one attribute and a documented `message` in between -/
-def exClass : Item :=
+def exSpecClass : Item :=
   .block none (mkCall "cpp_class" ["K"])
     [ .decl none (mkCall "cpp_member" ["go", "K", "int"]) (mkCall "function" ["_go", "self", "n"])
         [.cmd none (mkCall "cmake_parse_arguments" ["A", "", "", ""])] (mkCall "endfunction" []),
@@ -296,13 +296,13 @@ def exClass : Item :=
       .cmd none (mkCall "cpp_attr" ["K", "color", "red"]) ]
     (mkCall "cpp_end_class" [])
 
-example : (exClass.spec {} .none).top =
+example : (exSpecClass.spec {} .none).top =
     [ .cls (lit "K") [] [] []
         [] [{ name := lit "go", doc := [], parentClass := lit "K", paramTypes := [lit "int"], params := [lit "n"],
               isCtor := false, isMacro := false }]
         [{ name := lit "color", doc := [], parentClass := lit "K", dflt := some (lit "red") }],
       .generic (lit "message") (docTextOf (some (mkDoc "" ["Say."]))) [lit "hi", lit "there"] ] := by
-  rw [exClass, C02_class .none none _ _ _ (by decide)]
+  rw [exSpecClass, C02_class .none none _ _ _ (by decide)]
   decide
 
 example : (Item.decl none (mkCall "cpp_member" ["go", "K", "int"]) (mkCall "macro" ["_go", "self", "n"]) []
